@@ -47,6 +47,16 @@ UNITS = [
                  "instances (incl. values at every bound, astral characters) must validate; 14 instances with one "
                  "constraint broken and 13 structurally wrong documents must be rejected; judges: jsonschema "
                  "Draft 2019-09 and xmlschema", args={}, timeout_s=900),
+    # C08 / C10 / C29: run-time behaviour of the generated Python SDK -- decided by executing it, on a list of examples
+    Native("behaviour of the generated Python SDK: verification, round trips, traversal", ["C08", "C10", "C29"],
+           "native.c10:bounded", kind="examples",
+           bound="the meta-model of native/c11.py: 15 instances (valid, one or several invariants broken, values at and "
+                 "beyond every bound, floats, 62-bit integers, carriage returns, astral characters, empty list / bytes / "
+                 "string): verify() must report exactly the invariants that are false when evaluated directly in Python "
+                 "(descriptions verbatim, paths through the offending property); JSON and XML round trips field by "
+                 "field; 17 malformed JSON and 13 malformed XML documents must fail with DeserializationException "
+                 "only; descend_once / descend order, visitor and transformer dispatch, over_X_or_empty",
+           args={}, timeout_s=900),
     Native("every small structured flow against its linearization", ["C26"], "native.c26:bounded", kind="bounded",
            bound="every flow of <= 4 (thorough: 5) nodes, nesting <= 3, over Command / Yield / IfTrue / IfFalse (with, "
                  "without and with empty else) / For (with, without init) / While (bodies may be empty) x all 2^5 "
